@@ -1,4 +1,5 @@
 import Upa.Proofs.Percent
+import Upa.Proofs.Host
 import Upa.Impl.FilePath
 /-
   Helper lemmas for C17 — url_from_file_path / path_from_file_url (include/upa/url.h:3020-3330;
@@ -690,6 +691,87 @@ theorem parse_file_url (idna : Idna) (r : List Nat)
     rcases hc with rfl | rfl | rfl | rfl | rfl | rfl | rfl | rfl | hc
     all_goals first | omega | exact (hr c hc).2.2
 
+/-! ### the final "." host check of url_from_file_path -/
+
+theorem rejectDotHost_some {o : Option Url} {u : Url} (h : Impl.rejectDotHost o = some u) :
+    o = some u ∧ u.hostText ≠ [0x2E] := by
+  unfold Impl.rejectDotHost at h
+  cases o with
+  | none => cases h
+  | some v =>
+    simp only [Option.bind_some] at h
+    by_cases hv : v.hostText = [0x2E]
+    · rw [if_pos hv] at h; cases h
+    · rw [if_neg hv] at h
+      simp only [Option.some.injEq] at h
+      subst h
+      exact ⟨rfl, hv⟩
+
+theorem rejectDotHost_of_ne {u : Url} (h : u.hostText ≠ [0x2E]) : Impl.rejectDotHost (some u) = some u := by
+  unfold Impl.rejectDotHost
+  simp only [Option.bind_some]
+  rw [if_neg h]
+
+theorem rejectDotHost_id (o : Option Url) (h : ∀ u, o = some u → u.hostText ≠ [0x2E]) :
+    Impl.rejectDotHost o = o := by
+  cases o with
+  | none => rfl
+  | some u => exact rejectDotHost_of_ne (h u rfl)
+
+theorem doTrim_prefix (pre l : List Nat) (hne : pre ≠ []) (h : ∀ c ∈ pre, Impl.isTrimChar c = false) :
+    ∃ l', Impl.doTrim (pre ++ l) = pre ++ l' := by
+  unfold Impl.doTrim
+  have h1 : (pre ++ l).dropWhile Impl.isTrimChar = pre ++ l := by
+    cases pre with
+    | nil => exact absurd rfl hne
+    | cons a t => exact List.dropWhile_cons_of_neg (by simp [h a List.mem_cons_self])
+  have h2 : pre.reverse.dropWhile Impl.isTrimChar = pre.reverse :=
+    dropWhile_none _ _ (fun c hc => h c (List.mem_reverse.1 hc))
+  rw [h1, List.reverse_append, List.dropWhile_append]
+  split
+  · exact ⟨[], by rw [h2, List.reverse_reverse, List.append_nil]⟩
+  · exact ⟨(l.reverse.dropWhile Impl.isTrimChar).reverse, by rw [List.reverse_append, List.reverse_reverse]⟩
+
+/-- whatever follows `file:///`, the parsed URL has an empty host -/
+theorem parse_file3_hostText (idna : Idna) (l : List Nat) (u : Url)
+    (h : Impl.parse idna .u8 (Impl.sFilePrefix ++ 0x2F :: l) none = some u) : u.hostText = [] := by
+  unfold Impl.parse at h
+  have hpre : Impl.sFilePrefix ++ 0x2F :: l = [0x66, 0x69, 0x6C, 0x65, 0x3A, 0x2F, 0x2F, 0x2F] ++ l := by
+    rw [sFilePrefix_eq]; rfl
+  obtain ⟨l', hl'⟩ := doTrim_prefix [0x66, 0x69, 0x6C, 0x65, 0x3A, 0x2F, 0x2F, 0x2F] l (by simp) (by decide)
+  rw [hpre, hl'] at h
+  have hprep : Impl.prep .u8 ([0x66, 0x69, 0x6C, 0x65, 0x3A, 0x2F, 0x2F, 0x2F] ++ l') =
+      0x66 :: 0x69 :: 0x6C :: 0x65 :: 0x3A :: 0x2F :: 0x2F :: 0x2F :: Impl.decode .u8 (Impl.removeWs l') := by
+    unfold Impl.prep Impl.removeWs
+    rw [List.filter_append]
+    have : List.filter (fun c => !Impl.isRemovable c) [0x66, 0x69, 0x6C, 0x65, 0x3A, 0x2F, 0x2F, 0x2F] =
+        [0x66, 0x69, 0x6C, 0x65, 0x3A, 0x2F, 0x2F, 0x2F] := by decide
+    rw [this]
+    simp only [List.cons_append, List.nil_append]
+    rw [decode_ascii_cons _ (by omega), decode_ascii_cons _ (by omega), decode_ascii_cons _ (by omega),
+      decode_ascii_cons _ (by omega), decode_ascii_cons _ (by omega), decode_ascii_cons _ (by omega),
+      decode_ascii_cons _ (by omega), decode_ascii_cons _ (by omega)]
+  rw [hprep] at h
+  simp only [Impl.urlParse] at h
+  rw [if_pos (by decide), schemeState_file, fileState_slashes] at h
+  have hhost := C07.pathState_host none fileUrl0 (Impl.decode .u8 (Impl.removeWs l'))
+  generalize Impl.pathState none fileUrl0 (Impl.decode .u8 (Impl.removeWs l')) = res at h hhost
+  obtain ⟨out, url⟩ := res
+  cases out
+  · have h : url = u := by simpa using h
+    subst h
+    simp only at hhost
+    unfold Url.hostText
+    rw [hhost]
+    rfl
+  · simp at h
+  · simp at h
+
+theorem rejectDotHost_file3 (idna : Idna) (l : List Nat) :
+    Impl.rejectDotHost (Impl.parse idna .u8 (Impl.sFilePrefix ++ 0x2F :: l) none) =
+      Impl.parse idna .u8 (Impl.sFilePrefix ++ 0x2F :: l) none :=
+  rejectDotHost_id _ (fun u hu => by rw [parse_file3_hostText idna l u hu]; simp)
+
 theorem ite_frame {u a b : Url} {c : Prop} [Decidable c] (ha : ∃ p, a = { u with path := p })
     (hb : ∃ p, b = { u with path := p }) : ∃ p, (if c then a else b) = { u with path := p } := by
   split <;> assumption
@@ -753,6 +835,12 @@ theorem urlFromFilePath_posix (idna : Idna) (s : List Nat) :
     by_cases hc : c0 = 0x2F
     · simp only [hc, ne_eq, not_true, if_false, true_and]
       subst hc
+      have hrej : Impl.rejectDotHost (Impl.parse idna .u8
+          (Impl.sFilePrefix ++ Impl.percentEncode Impl.posixPathNoEnc (47 :: r)) none) =
+          Impl.parse idna .u8 (Impl.sFilePrefix ++ Impl.percentEncode Impl.posixPathNoEnc (47 :: r)) none := by
+        rw [percentEncode_ascii_noenc _ _ _ (by omega) (by decide)]
+        exact rejectDotHost_file3 idna _
+      rw [hrej]
       by_cases h1 : Impl.hasDotDotSegment (· == 0x2F) none (47 :: r) = true
       · have := hdd.1 h1
         simp [h1, this]
@@ -854,8 +942,8 @@ def winTail (idna : Idna) (cl : List Nat × Bool) : Option Url :=
   | some chk =>
     if Impl.hasDotDotSegment Impl.isWindowsSlash none chk then none
     else if chk.any (· == 0) then none
-    else Impl.parse idna .u8 (Impl.sFilePrefix ++ (if cl.2 then [] else [0x2F]) ++
-           Impl.percentEncode Impl.rawPathNoEnc cl.1) none
+    else Impl.rejectDotHost (Impl.parse idna .u8 (Impl.sFilePrefix ++ (if cl.2 then [] else [0x2F]) ++
+           Impl.percentEncode Impl.rawPathNoEnc cl.1) none)
 
 theorem urlFromFilePath_windows0 (idna : Idna) (c0 : Nat) (r0 : List Nat) :
     Impl.urlFromFilePath idna (c0 :: r0) .windows = winTail idna (winClassify (c0 :: r0)) := rfl
@@ -1035,8 +1123,9 @@ theorem urlFromFilePath_windows (idna : Idna) (s : List Nat) :
       | none => none
       | some chk =>
         if dd ∈ splitOnP Impl.isWindowsSlash chk ∨ 0 ∈ chk then none
-        else Impl.parse idna .u8 (Impl.sFilePrefix ++ (if (winClassify s).2 then [] else [0x2F]) ++
-               Impl.percentEncode Impl.rawPathNoEnc (winClassify s).1) none := by
+        else Impl.rejectDotHost (Impl.parse idna .u8
+               (Impl.sFilePrefix ++ (if (winClassify s).2 then [] else [0x2F]) ++
+               Impl.percentEncode Impl.rawPathNoEnc (winClassify s).1) none) := by
   cases s with
   | nil => rfl
   | cons c0 r0 =>
@@ -1106,6 +1195,7 @@ theorem from_path_windows (idna : Idna) (s : List Nat) (u : Url)
       by_cases hbad : dd ∈ splitOnP Impl.isWindowsSlash chk ∨ 0 ∈ chk
       · rw [if_pos hbad] at h; cases h
       rw [if_neg hbad] at h
+      have h := (rejectDotHost_some h).1
       simp only [not_or] at hbad
       obtain ⟨a, b, c, hp, hdrv, hsl⟩ := driveAbs_shape _ _ hd
       have hsafe := raw_safe pointer hps
@@ -1131,6 +1221,7 @@ theorem from_path_windows (idna : Idna) (s : List Nat) (u : Url)
       by_cases hbad : dd ∈ splitOnP Impl.isWindowsSlash chk ∨ 0 ∈ chk
       · rw [if_pos hbad] at h; cases h
       rw [if_neg hbad] at h
+      have h := (rejectDotHost_some h).1
       simp only [not_or] at hbad
       obtain ⟨host, sl, share, hp, hsl, hne, -, hc, -, -, hdrv, -, -, -, -⟩ := isUncPath_shape _ _ hd
       have hhost : ∀ c ∈ host, Spec.isScalar c = true := by
